@@ -187,6 +187,18 @@ PathOK(route, names, alias) == LET r == TablePath(route, names, alias) IN
     RouteApplies(route, Len(names)) => /\ SubSeq(r.ids, 1, Len(names)) = names
                                         /\ Len(r.ids) = Len(names) + (IF alias = "" THEN 0 ELSE 1)
 
+\* ---- MySQL LOAD DATA: a two-slot builder.  hist = Seq([m |-> "load" | "into", v |-> name]); each call overwrites its slot (the last one
+\* wins); the statement exists only when both slots are filled - an incomplete builder renders the EMPTY string instead of raising (named
+\* deviation DevIncompleteLoadRendersEmpty; an empty file name counts as "no file").
+RECURSIVE LastOf(_, _, _)
+LastOf(hist, m, i) == IF i = 0 THEN "" ELSE IF hist[i].m = m THEN hist[i].v ELSE LastOf(hist, m, i - 1)
+LoadOutcome(hist) == LET f == LastOf(hist, "load", Len(hist))  t == LastOf(hist, "into", Len(hist)) IN
+    IF f = "" \/ t = "" THEN <<>> ELSE <<"LOAD", "DATA", "LOCAL", "INFILE", f, "INTO", "TABLE", t, "FIELDS", "TERMINATED", "BY", ",">>
+\* what a caller may rely on: complete or nothing, exactly one file and one table - those of the last calls - whatever the order of the calls
+LoadSane(hist) == LET o == LoadOutcome(hist) IN
+    /\ (o # <<>>) <=> ((\E i \in DOMAIN hist : hist[i].m = "load" /\ LastOf(hist, "load", Len(hist)) # "") /\ (\E i \in DOMAIN hist : hist[i].m = "into"))
+    /\ o # <<>> => /\ Len(o) = 12 /\ o[5] = LastOf(hist, "load", Len(hist)) /\ o[8] = LastOf(hist, "into", Len(hist))
+
 \* The render paths of one statement - str(), repr(), get_sql() without a context, get_sql(the context of its query class) - are one
 \* action: they yield one text (outs = the texts, in that order).
 PathsAgree(outs) == \A i, j \in DOMAIN outs : outs[i] = outs[j]
